@@ -263,6 +263,9 @@ def run(ctx):
     rtexts = corpus.block_programs() + multi[::(9 if ctx.quick else 2)] + [src for _, _, src in (reals[:6] if ctx.quick else reals)]
     # files that begin with blank or blank-only lines, or end without a newline / with several
     base = corpus.block_programs() + multi[::(40 if ctx.quick else 10)]
+    # characters str.splitlines() treats as line ends but the parser does not: in a comment before the code
+    seps = ['\x0c', '\x0b', '\x1c', '\x1d', '\x1e', '\x85', '\u2028', '\u2029']
+    rtexts += [f'# page{c}break\n' + t for c in seps for t in base[:2]] + [t.replace('\n', '\r\n') for t in base[:3]]
     rtexts += ['\n\n' + t for t in base] + ['  \n\t\n' + t for t in base[:6]] + ['# c\n\n' + t for t in base[:6]] + [t.rstrip('\n') + '\n\n\n' for t in base[:6]]
     res2 = pool.pmap(render_check, list(enumerate(rtexts)), workers=ctx.workers, rotate=ctx.seed)
     quoted = 0
